@@ -1,6 +1,6 @@
-BOUNDS = ('formats BMP (rgb8, rgba8, bgr8), binary PNM (gray8, rgb8, bgr8), TARGA (rgb8, rgba8, bgr8, bgra8); widths 1..5 (every BMP row-padding residue), heights 1..2 concrete per query; '
+BOUNDS = ('formats BMP (rgb8, rgba8, bgr8), binary PNM (gray8, rgb8, bgr8; bit-aligned gray1 for widths 1..17), TARGA (rgb8, rgba8, bgr8, bgra8); widths 1..5 (every BMP row-padding residue), heights 1..2 concrete per query; '
           'view organisations interleaved, planar, sub-view, x-stepped, y-flipped; FILE*, file name and std::ostream (read back through std::istream; stream model rt/rt_ios.c); every pixel symbolic, the compared pixel position symbolic')
-OUTSIDE = ('PNG, TIFF, JPEG (libpng/libtiff/libjpeg: not encodable); bit-aligned PNM (gray1) views; w > 5 (8 for thorough), h > 2')
+OUTSIDE = ('PNG, TIFF, JPEG (libpng/libtiff/libjpeg: not encodable); w > 5 (8 for thorough), h > 2')
 ASSUMPTIONS = ['the FILE* model (rt/rt_file.c): what fwrite stores is what fread returns', 'the stream model (rt/rt_ios.c): what ostream::write / operator<< store is what istream::readsome/get return', 'read_image of the same pixel type is the inverse under test (its own safety is C11)']
 def queries(tier, seed):
     qs = []
@@ -20,4 +20,14 @@ def queries(tier, seed):
                             qs.append(Q('%s/%s/%s/%s/%dx%d' % (fn, pix.split('::')[1].replace('_pixel_t', ''), on, {1: 'file', 2: 'name', 3: 'stream'}[dev], w, h), 'C12/rt.cpp', 'h_rt',
                                         defs=dict(FORMAT=fi, PIX=pix, ORG=org, DEV=dev), params=[w, h], rt=['file', 'string'] + (['ios'] if dev == 3 else []), unwind=max(16, 4 * w + 6), rt_unwind=bytes_, mem_unwind=400,
                                         cdefs=dict(VP_FILE_MAX=bytes_), tier='quick' if quick else 'thorough', timeout=300))
+    # bit-aligned gray1 through PNM (P4): every width residue mod 8 (rows are packed 8 pixels to a byte, leftmost pixel in the most significant bit)
+    for dev in (1, 3):
+        for w in range(1, 18):
+            for h in (1, 2):
+                quick = (dev == 1 and h == 2 and w in (1, 3, 8, 9)) or (dev == 3 and (w, h) == (9, 2))
+                if w > 10 and h == 1: continue
+                bytes_ = 40 + ((w + 7) // 8) * h
+                qs.append(Q('pnm/gray1/bitaligned/%s/%dx%d' % ({1: 'file', 3: 'stream'}[dev], w, h), 'C12/rt.cpp', 'h_rt', defs=dict(FORMAT=2, PIX='gil::gray8_pixel_t', ORG=6, DEV=dev), params=[w, h],
+                            rt=['file', 'string'] + (['ios'] if dev == 3 else []), unwind=max(16, 2 * w + 6), unwindset=[(r'mirror_bits|negate_bits|write_data|read_bin_data|reader.*apply|writer.*apply', 300)], rt_unwind=bytes_, mem_unwind=400,
+                            cdefs=dict(VP_FILE_MAX=bytes_), tier='quick' if quick else 'thorough', timeout=300))
     return qs
